@@ -180,15 +180,15 @@ class Impl:
 
     def reg_by_name(self, key):
         """key = 'name/classTag' (xmm0 exists as single and double)"""
-        name, tag = key.split('/')
-        for rc in self.arch.info.register_classes:
-            for r in rc.registers or []:
-                if r.name == name and CLSTAG[CLS[type(r).__name__]] == int(tag):
-                    return r
-        for r in (self.R.rbp, self.R.rsp, self.R.r12, self.R.r13):
-            if r.name == name:
-                return r
-        raise KeyError(key)
+        if not hasattr(self, '_byname'):
+            regs = []
+            for rc in self.arch.info.register_classes:
+                regs += list(rc.registers or [])
+            for k, v in self.arch.info.alias.items():
+                regs += [k] + list(v)
+            regs += [self.R.rbp, self.R.rsp, self.R.r12, self.R.r13]
+            self._byname = {'%s/%d' % (r.name, CLSTAG[CLS[type(r).__name__]]): r for r in regs}
+        return self._byname[key]
 
     def prologue(self, stacksize, used):
         return self.abstract(list(self.arch.gen_prologue(self.frame(stacksize, used))), [])
@@ -418,6 +418,27 @@ def simulate(ops, rsp, regs=None, mem=None):
     return rsp, regs, mem, at_call
 
 
+def defect_places(sig):
+    """what the psABI walk gives when a stack-passed float takes a 4-byte slot (the reported defect)"""
+    out, shift = [], 0
+    for t, w in zip(sig, sysv_places(sig)):
+        if w[0] == 'm':
+            out.append(('m', w[1] - shift))
+            if t == 'f32':
+                shift += 4
+        else:
+            out.append(w)
+    return out
+
+
+def stack_classes(sig):
+    cl = set()
+    for t, w in zip(sig, sysv_places(sig)):
+        if w[0] == 'm':
+            cl.add('fp' if t in ('f32', 'f64') else ('small-int' if t in ('i8', 'u8', 'i16', 'u16') else 'int'))
+    return cl
+
+
 def check_signature(impl, ctx, sig):
     """implementation vs psABI oracle for one signature; reports violations; returns evaluations"""
     n = 1
@@ -427,16 +448,19 @@ def check_signature(impl, ctx, sig):
         bad = [i for i, (a, b) in enumerate(zip(got, want)) if a != b]
         ctx.violation({'fn': 'determine_arg_locations', 'args': list(sig), 'expected': [list(x) for x in want],
                        'actual': [list(x) for x in got], 'first_wrong_argument': bad[0] if bad else None,
+                       'key': 'f32-stack-slot-4-bytes' if got == defect_places(sig) else 'determine_arg_locations:other',
                        'how_to_replay': 'PYTHONPATH=$REPO python -c "from ppci import ir; from ppci.api import get_arch; '
                                         'print(get_arch(\'x86_64\').determine_arg_locations([%s]))"' % ', '.join('ir.' + t for t in sig)})
     call = outcome(impl.gen_call, list(sig), None)
     enter = outcome(impl.gen_function_enter, list(sig))
     n += 2
+    sc = stack_classes(sig)
     for nm, o in (('gen_call', call), ('gen_function_enter', enter)):
         if not isinstance(o, OkV):
-            cls = 'fp' if any(t in ('f32', 'f64') for t, w in zip(sig, want) if w[0] == 'm') else 'small-int'
-            ctx.violation({'fn': nm, 'args': list(sig), 'key': nm + ':NotImplemented:' + cls,
-                           'what': 'NotImplementedError for a stack-passed %s argument' % cls,
+            cause = sorted(sc & ({'fp', 'small-int'} if nm == 'gen_call' else {'small-int'}))
+            ctx.violation({'fn': nm, 'args': list(sig),
+                           'key': ('NotImplemented:stack-passed-' + '+'.join(cause)) if cause else nm + ':exception:other',
+                           'what': 'exception (NotImplementedError) for a stack-passed %s argument' % '/'.join(cause or ['?']),
                            'expected': 'an instruction sequence', 'actual': 'exception',
                            'how_to_replay': 'call X86_64Arch.%s with virtual registers of the value classes of %r' % (nm, list(sig))})
         elif any(x[0] == 'unknown' for x in o.v):
@@ -471,7 +495,8 @@ def check_signature(impl, ctx, sig):
                 seen[o[1]] = phys_of(o[2])
         for i, w in enumerate(want):
             if seen.get(i) != w:
-                ctx.violation({'fn': 'gen_function_enter', 'args': list(sig), 'key': 'gen_function_enter:placement',
+                ctx.violation({'fn': 'gen_function_enter', 'args': list(sig),
+                               'key': 'f32-stack-slot-4-bytes' if seen.get(i) == defect_places(sig)[i] else 'gen_function_enter:placement',
                                'what': 'parameter %d is not read from its psABI place' % i,
                                'expected': list(w), 'actual': repr(seen.get(i))})
                 break
@@ -604,15 +629,30 @@ def coq_used(impl, used):
     return '[%s]' % '; '.join(coq_reg(impl, impl.reg_by_name(u)) for u in used)
 
 
+OPCODE = {'label': 0, 'push': 1, 'pop': 2, 'pusharg': 3, 'sub': 4, 'add': 5, 'movfpsp': 6, 'argtoreg': 7, 'call': 8,
+          'rvfrom': 9, 'argfromreg': 10, 'argfromstack': 11, 'ret': 12, 'reg': 0, 'stack': 1, 'unknown': 99, 'db': 98}
+
+
+def enc(x):
+    """numeric rendering matching the ToVal instances of Model/X86AbiTypes.v (names of registers dropped)"""
+    if isinstance(x, tuple):
+        if len(x) == 3 and isinstance(x[0], str) and isinstance(x[1], int) and x[2] in CLSTAG.values() and x[0] not in OPCODE:
+            return (x[1], x[2])
+        if x and isinstance(x[0], str) and x[0] in OPCODE:
+            if x[0] == 'unknown':
+                return (99,)
+            return (OPCODE[x[0]],) + tuple(enc(y) for y in x[1:])
+        return tuple(enc(y) for y in x)
+    if isinstance(x, list):
+        return [enc(y) for y in x]
+    return x
+
+
 def val_ops(o):
     """implementation outcome -> value comparable with toval of the model"""
     if not isinstance(o, OkV):
         return o
-    return OkV([_op(x) for x in o.v])
-
-
-def _op(x):
-    return tuple(x)
+    return OkV(enc([tuple(x) for x in o.v]))
 
 
 # ---------------------------------------------------------------- witnesses of the known defects
@@ -631,6 +671,8 @@ def search(ctx, impl=None, deep=False):
     sigs = signatures(ctx, deep)
     if not deep:
         sigs = sigs[:700]
+    # witnesses of the recorded defects are re-executed on the implementation on every run
+    sigs = [tuple(w[1]) for w in WITNESSES] + [x for x in sigs if list(x) not in [w[1] for w in WITNESSES]]
     for s in sigs:
         n += check_signature(impl, ctx, s)
     for (sz, used) in frames(impl, ctx, deep):
@@ -707,7 +749,7 @@ def run(ctx):
         for s in sigs:
             cs = coq_sig(s)
             locs = outcome(impl.arg_locations, list(s))
-            cases.append(('determine_arg_locations %s' % cs, locs.v if isinstance(locs, OkV) else locs))
+            cases.append(('determine_arg_locations %s' % cs, enc(locs.v) if isinstance(locs, OkV) else locs))
             recs.append(('determine_arg_locations', s))
             rvt = ctx.rng.choice([None] + TYPES)
             call = outcome(impl.gen_call, list(s), rvt)
@@ -719,14 +761,14 @@ def run(ctx):
             if any(w[0] == 'm' for w in sysv_places(s)):
                 nontriv += 1
         for t in TYPES:
-            cases.append(('determine_rv_location %s' % COQTY[t], impl.regt(impl.arch.determine_rv_location(impl.ty[t]))))
+            cases.append(('determine_rv_location %s' % COQTY[t], enc(impl.regt(impl.arch.determine_rv_location(impl.ty[t])))))
             recs.append(('determine_rv_location', (t,)))
         frs = frames(impl, ctx, thorough)
         for (sz, used) in frs:
             cu = coq_used(impl, used)
-            cases.append(('gen_prologue %d %s' % (sz, cu), [tuple(x) for x in impl.prologue(sz, list(used))]))
+            cases.append(('gen_prologue %d %s' % (sz, cu), enc([tuple(x) for x in impl.prologue(sz, list(used))])))
             recs.append(('gen_prologue', (sz, used)))
-            cases.append(('gen_epilogue %d %s' % (sz, cu), [tuple(x) for x in impl.epilogue(sz, list(used))]))
+            cases.append(('gen_epilogue %d %s' % (sz, cu), enc([tuple(x) for x in impl.epilogue(sz, list(used))])))
             recs.append(('gen_epilogue', (sz, used)))
             if sz > 0 or any(u.split('/')[0] in ('rbx', 'ebx', 'bx', 'bl', 'bh', 'r14', 'r14d', 'r15', 'r15d') for u in used):
                 nontriv += 1
@@ -740,11 +782,6 @@ def run(ctx):
                 ctx.log('model/implementation disagree on', recs[i][0], recs[i][1])
             ctx.failed_stages.append(('correspondence', 'Model.X86Abi disagrees with ppci/arch/x86_64/arch.py on %d cases, first: %s %r'
                                       % (len(bad), recs[bad[0]][0], recs[bad[0]][1])))
-    # ---- known-defect witnesses: re-executed on the implementation on every run
-    for fn, sig in WITNESSES:
-        if fn == 'determine_arg_locations':
-            if impl_places(impl, sig) != sysv_places(sig):
-                check_signature(impl, ctx, tuple(sig))
     # ---- search against the independent oracle (cheap always; deep when something failed / thorough)
     search(ctx, impl, deep=thorough or bool(ctx.failed_stages))
     ctx.cov['exhaustive'] = False
